@@ -161,6 +161,9 @@ def check_one(game, bp, svs, nk, ov, ctx):
 
     def mk():
         m = charts.make_map(game, notes, [(float(t), float(b)) for t, b in bp], [(float(t), m) for t, m in svs] if game != "bms" else ())
+        if game == "qua" and len(bp) % 2 == 0:
+            # a header field that is not an SV point: "times the active SV multiplier", 1 where no SV is active
+            m.initial_scroll_velocity = 2.5
         if second_use:
             # second use of the same chart object: analyse it once with the bpm values rotated, then put the real values in place
             real = m.bpms.bpm.tolist()
